@@ -12,7 +12,7 @@ ID = 'C10'
 LEVEL = 'exploration'
 BUDGET = {'quick': 240, 'thorough': 2400}
 CHUNK = 1
-RULE = ('Cases: histories of 1..8 operations over {merge on either side, delete (names on the command line or in a names file, also with blank lines), weed, reverse weed, an operation that is refused or fails (weed file without k-mers or missing, unknown or all names, merge with another k onto the file itself, unwritable output) and must leave the content as it was, filter-only weed with every '
+RULE = ('Cases: histories of 1..8 operations over {merge on either side, delete (names on the command line or in a names file, also with blank lines), weed, reverse weed (also with a weed file that shares no k-mer with the table, and on the history file under a name not ending in .skf), an operation that is refused or fails (weed file without k-mers or missing, unknown or all names, merge with another k onto the file itself, unwritable output) and must leave the content as it was, filter-only weed with every '
         'site filter / threshold / --filter-ambig-as-missing / --ambig-mask / --no-gap-only-sites, plain reload} applied with the '
         'real ska to a starting table rich in ambiguity codes; forced templates (count-changing filter then a threshold align '
         'without that flag; mask then count; delete then filter; merge after filter; weed to empty then merge).  After every '
@@ -26,7 +26,7 @@ ASSUMPTIONS = ['weed rounds its frequency threshold down, align up (DESIGN.md se
 TEMPLATES = ['famfilter_then_align', 'mask_then_count', 'delete_then_filter', 'merge_after_filter', 'weed_empty_then_merge']
 REQUIRED = {t: ['template:' + x for x in TEMPLATES] + ['op:merge', 'op:delete', 'op:weed', 'op:rweed', 'op:filter', 'op:reload',
                                                         'final_align_compared', 'final_distance_compared', 'final_map_compared',
-                                                        'final_weed_compared', 'final_delete_compared', 'fresh_via_build', 'fresh_via_library', 'stored_objects_checked', 'op:refused']
+                                                        'final_weed_compared', 'final_delete_compared', 'fresh_via_build', 'fresh_via_library', 'stored_objects_checked', 'op:refused', 'weeds_on_a_file_not_named_skf']
             for t in ('quick', 'thorough')}
 FILTERS = ['no-filter', 'no-const', 'no-ambig', 'no-ambig-or-const']
 
@@ -171,23 +171,45 @@ class History:
             p = self.run('merge', self.cur, self.ctx.path('otherk.skf'), '-o', self.cur[:-4])
         return OK(p.stderr, p.returncode), 'refused(%s)' % what
 
-    def op_weed(self, reverse, ws=None):
+    def op_weed(self, reverse, ws=None, nothing=False):
         rng = self.rng
         if not self.T:
             return None, None
-        if ws is None:
-            ws = rng.sample(list(self.T), rng.randint(1, max(1, len(self.T) // 3)))
-        recs = []
-        for arms in ws:
-            s = arms[:self.h] + rng.choice('ACGT') + arms[self.h:]
-            if rng.random() < 0.5:
-                s = M.rc(s)
-            recs.append(s + 'N')
+        if nothing:
+            # a weed file that shares no k-mer with the table: forward it removes nothing, with --reverse everything
+            for _ in range(1000):
+                w = G.rseq(rng, self.k)
+                if not (set(M.build([w], self.k, True)) & set(self.T)):
+                    break
+            else:
+                return None, None
+            ws, recs = [], [w]
+        else:
+            if ws is None:
+                ws = rng.sample(list(self.T), rng.randint(1, max(1, len(self.T) // 3)))
+            recs = []
+            for arms in ws:
+                s = arms[:self.h] + rng.choice('ACGT') + arms[self.h:]
+                if rng.random() < 0.5:
+                    s = M.rc(s)
+                recs.append(s + 'N')
         G.write_fa(self.ctx.path('w.fa'), recs)
-        p = self.run('weed', self.cur, self.ctx.path('w.fa'), '--min-freq', '0', *(['--reverse'] if reverse else []))
+        literal = rng.random() < 0.3
+        target = self.cur
+        if literal:
+            # weed works on literal file names: the history file under a name that does not end in .skf, weeded in place
+            target = self.ctx.path('cur.v1')
+            shutil.copy(self.cur, target)
+            for stale in ('cur.v1.skf',):
+                if os.path.exists(self.ctx.path(stale)):
+                    os.remove(self.ctx.path(stale))
+        p = self.run('weed', target, self.ctx.path('w.fa'), '--min-freq', '0', *(['--reverse'] if reverse else []))
+        if literal:
+            shutil.copy(target, self.cur)
+            self.res.count('weeds_on_a_file_not_named_skf')
         self.T = M.t_weed(self.T, set(ws), reverse)
         self.changed += 1
-        return p, '%sweed(%d k-mers)' % ('reverse ' if reverse else '', len(ws))
+        return p, '%sweed(%s%s)' % ('reverse ' if reverse else '', 'no k-mer of the file' if nothing else '%d k-mers' % len(ws), ', file cur.v1' if literal else '')
 
     def op_filter(self, filt=None, mf=None, fam=None, mask=None, nogap=None):
         rng = self.rng
@@ -333,7 +355,7 @@ def run_case(desc, ctx):
                 failed = True
 
         pre = rng.randint(0, 3) if desc['template'] else rng.randint(1, 8)
-        ops = ['merge', 'delete', 'weed', 'rweed', 'filter', 'filter', 'reload', 'refused']
+        ops = ['merge', 'delete', 'weed', 'rweed', 'filter', 'filter', 'reload', 'refused', 'weed-nothing']
         for _ in range(pre):
             if failed or not hist.T:
                 break
@@ -350,6 +372,9 @@ def run_case(desc, ctx):
                 step(hist.op_filter())
             elif op == 'refused':
                 step(hist.op_refused())
+            elif op == 'weed-nothing':
+                # the reverse form empties the table and thereby ends the history: rarer
+                step(hist.op_weed(rng.random() < 0.25, nothing=True))
             else:
                 step(hist.op_reload())
         if desc['template'] and not failed and (hist.T or desc['template'] == 'weed_empty_then_merge'):
